@@ -14,7 +14,7 @@ from pathlib import Path
 
 V = Path(__file__).resolve().parent.parent
 REPO = Path(os.environ["SPOX_REPO"])
-assert str(REPO).startswith("/work/repo-"), "refusing to mutate anything but a scratch copy"
+assert str(REPO).startswith("/work/repo-") or "/.work/repo-" in str(REPO), "refusing to mutate anything but a scratch copy"
 
 V17 = "src/spox/opset/ai/onnx/v17.py"
 MUT = {
